@@ -466,7 +466,7 @@ def run(ctx):
     pool = ThreadPoolExecutor(6)
     # ---------------------------------------------------------------- design level (started in the background)
     confs = [("0_a", 2, 4, 3), ("_a", 3, 3, 3)] if quick else \
-            [("$0A_ab", 2, 3, 3), ("$_a", 3, 3, 4), ("_a", 4, 4, 5), ("0A_a", 2, 4, 3)]
+            [("$0A_ab", 2, 3, 3), ("$_a", 3, 3, 3), ("_a", 4, 4, 4), ("0A_a", 2, 4, 3)]
     futs = []
     for i, (alpha, nm, tb, se) in enumerate(confs):
         futs.append(("MC_Lookup(alpha=%s,name<=%d,table<=%d,search<=%d)" % (alpha, nm, tb, se), "mc", i == 0,
